@@ -16,6 +16,9 @@ FIRST = {
     # round 4 (13 of 20 missed by the checks as they were when the change was made)
     "C01/4": "missed", "C03/5": "missed", "C05/4": "missed", "C06/4": "missed", "C07/4": "missed", "C09/4": "missed", "C10/4": "missed",
     "C11/4": "missed", "C12/4": "missed", "C16/4": "missed", "C17/4": "missed", "C18/4": "missed", "C19/4": "missed", "C20/4": "missed",
+    # round 5 (12 of 20 missed)
+    "C01/5": "missed", "C02/5": "missed", "C03/6": "missed", "C04/5": "missed", "C05/5": "missed", "C06/5": "missed", "C09/5": "missed",
+    "C12/5": "missed", "C13/5": "missed", "C14/6": "missed", "C15/5": "missed", "C20/5": "missed",
 }
 
 
